@@ -30,7 +30,10 @@ type c16Ref struct {
 
 var c16Topics = []string{"t1", "t2"}
 
-var c16Events = []string{"connect-clean", "connect-keep", "subscribe-t1", "subscribe-t2", "unsubscribe-t1", "drop-current", "drop-superseded", "admin-delete"}
+// half-dead-current: the broker's writes to the current connection start failing while its read loop keeps
+// waiting (the broker then closes the connection on the next write, but the connection stays registered and
+// its read loop notices only when the link is finally dropped, as a "superseded"/dead connection).
+var c16Events = []string{"connect-clean", "connect-keep", "subscribe-t1", "subscribe-t2", "unsubscribe-t1", "drop-current", "drop-superseded", "admin-delete", "half-dead-current"}
 
 func setStr(m map[string]bool) string {
 	var k []string
@@ -89,7 +92,10 @@ func TestVerifC16(t *testing.T) {
 				}
 				// registration and session map must agree with the reference
 				vb.b.RLock()
-				_, registered := vb.b.clients["c"]
+				rc, registered := vb.b.clients["c"]
+				if registered && ref.current < 0 && rc.disconnected() {
+					registered = false // a closed connection whose read loop has not ended yet may linger in the table
+				}
 				vb.b.RUnlock()
 				_, hasSess := vb.b.sessMgr.sessionMap.Load("c")
 				if registered != (ref.current >= 0) {
@@ -107,7 +113,7 @@ func TestVerifC16(t *testing.T) {
 					switch e {
 					case "connect-clean", "connect-keep":
 						ok = len(conns) < 3
-					case "subscribe-t1", "subscribe-t2", "unsubscribe-t1", "drop-current", "admin-delete":
+					case "subscribe-t1", "subscribe-t2", "unsubscribe-t1", "drop-current", "admin-delete", "half-dead-current":
 						ok = ref.current >= 0
 					case "drop-superseded":
 						ok = false
@@ -169,6 +175,17 @@ func TestVerifC16(t *testing.T) {
 				case "drop-current":
 					conns[ref.current].drop()
 					open[ref.current] = false
+					ref.current = -1
+					ref.subs = nil
+					if ref.clean {
+						ref.persisted = nil
+					}
+				case "half-dead-current":
+					cur := conns[ref.current]
+					cur.srv.FailWrites()
+					cur.send(packets.NewControlPacket(packets.Pingreq)) // the PINGRESP cannot be written
+					synctest.Wait()
+					// for the session model this is the end of the current connection; its link stays open
 					ref.current = -1
 					ref.subs = nil
 					if ref.clean {
